@@ -1,6 +1,54 @@
+import Model.Pool
 import Driver.Util
 namespace Driver.C17
-/-- placeholder: replaced when the property's model is built -/
-def step (_ : Unit) (_ : List String) : Unit × String := ((), "unimplemented")
+open Util Pool
+
 def init : Unit := ()
+
+def parseAct : String → Option Act
+  | "fillStart" => some .fillStart | "dialOk" => some .dialOk | "dialFail" => some .dialFail
+  | "fillStop" => some .fillStop | "connError" => some .connError | "close" => some .close
+  | _ => none
+
+def kv (ws : List String) (k : String) : Option Nat :=
+  (ws.findSome? fun w => match w.splitOn "=" with
+    | [a, b] => if a == k then b.toNat? else none
+    | _ => none)
+
+/-- ops:
+  poolobs size=N maxconns=M maxopen=K final=F afterclose=J
+      what a monitor goroutine saw on a real Session: the largest len(pool.conns), the largest number of
+      simultaneously open sockets to that host, the pool's size at quiescence before Close, open sockets
+      after Close  → accept | reject:<clause>   (clauses = theorems C17_pool_bound / C17_no_conn_after_close;
+      `final` must equal `size`: lost connections are replaced)
+  debrace <kind> rounds=R hung=H       → accept iff H = 0 (C17_debouncer_stop_returns)
+  sessclose returned=1 panics=0 again=1 queryerr=closed open=0  → accept iff exactly that
+  model <size> <act> <act> ...         → conns/pending/filling/closed/opened after the run, or `stuck` -/
+def step (_ : Unit) (ws : List String) : Unit × String :=
+  ((), match ws with
+  | "poolobs" :: r =>
+      match kv r "size", kv r "maxconns", kv r "maxopen", kv r "final", kv r "afterclose" with
+      | some n, some m, some k, some f, some j =>
+        if m > n then s!"reject:pool-holds-{m}-of-{n}"
+        else if k > n then s!"reject:open-sockets-{k}-of-{n}"
+        else if j > 0 then s!"reject:open-after-close-{j}"
+        else if f ≠ n then s!"reject:not-refilled-{f}-of-{n}"
+        else "accept"
+      | _, _, _, _, _ => "bad-op"
+  | "debrace" :: _ :: r =>
+      match kv r "hung" with
+      | some 0 => "accept"
+      | some h => s!"reject:stop-hung-{h}"
+      | none => "bad-op"
+  | ["sessclose", a, b, c, d, e] =>
+      if a == "returned=1" && b == "panics=0" && c == "again=1" && d == "queryerr=closed" && e == "open=0" then "accept"
+      else s!"reject:{a},{b},{c},{d},{e}"
+  | "model" :: sz :: acts =>
+      match sz.toNat?, acts.mapM parseAct with
+      | some n, some as => match run (Pool.init n) as with
+        | some s => s!"conns={s.conns} pending={s.pending} filling={s.filling} closed={s.closed} opened={s.opened}"
+        | none => "stuck"
+      | _, _ => "bad-op"
+  | _ => "bad-op")
+
 end Driver.C17
